@@ -68,13 +68,18 @@ class Effects:
                 if n['n'] in ACTIVE_MEMBERS and n.get('rv'): eff.add('R_ACTIVE')
         return eff
     def summary(self, fk, depth=0, stack=None):
-        """set of classes the function may exhibit (transitively through resolved calls into msm code)"""
+        """set of classes the function may exhibit (transitively through resolved calls into msm code);
+        results are memoised unless the computation was cut by a recursion cycle or the depth bound"""
         if fk in self.memo: return self.memo[fk]
         f = self.F.bykey.get(fk)
         if f is None or not f.blocks: return frozenset()
-        stack = stack or set()
-        if fk in stack or depth > 12: return frozenset()
-        stack = stack | {fk}
+        stack = stack if stack is not None else set()
+        if fk in stack or depth > 14:
+            self.cut = True
+            return frozenset()
+        stack.add(fk)
+        outer_cut = getattr(self, 'cut', False)
+        self.cut = False
         eff = set(self.local(f))
         # any read of the active arrays (not only rvalue loads) counts for R_ACTIVE in summaries
         for n in f.nodes:
@@ -87,12 +92,22 @@ class Effects:
             # lambdas / functors passed to for_each-like algorithms: their call operator runs
             for a in n.get('args', []):
                 an = f.nodes[a]
-                if an and an['k'] == 'lambda': eff |= self.summary(an['fk'], depth + 1, stack)
+                if an and an['k'] == 'lambda': eff |= self.lambda_summary(an, depth + 1, stack)
                 if an and an['k'] == 'ctor' and an.get('org') == 1:
                     eff |= self.functor_summary(an, depth, stack)
+        stack.discard(fk)
         r = frozenset(eff)
-        if depth == 0 or len(stack) <= 1: self.memo[fk] = r
+        if not self.cut or not stack: self.memo[fk] = r
+        self.cut = self.cut or outer_cut
         return r
+    def lambda_summary(self, lam, depth, stack):
+        """effects of a lambda passed as an argument: its call operator, or for a generic lambda every instantiation of it"""
+        eff = set(self.summary(lam['fk'], depth, stack))
+        lck = lam.get('lck')
+        if lck is not None:
+            for g in self.F.funcs_of_lambda(lck):
+                if g.n == 'operator()': eff |= self.summary(g.k, depth, stack)
+        return eff
     def functor_summary(self, ctor_node, depth, stack):
         """a library functor object constructed as an argument (mpl::for_each(f)): effects of its operator()"""
         pt = ctor_node.get('pt')
@@ -110,8 +125,8 @@ class Effects:
         eff = set(self.summary(k)) if k is not None else set()
         for a in n.get('args', []):
             an = f.nodes[a]
-            if an and an['k'] == 'lambda': eff |= self.summary(an['fk'])
-            if an and an['k'] == 'ctor' and an.get('org') == 1: eff |= self.functor_summary(an, 0, set())
+            if an and an['k'] == 'lambda': eff |= self.lambda_summary(an, 0, None)
+            if an and an['k'] == 'ctor' and an.get('org') == 1: eff |= self.functor_summary(an, 0, None)
         return frozenset(eff)
 
 BEHAVIOUR = ('GUARD', 'EXIT', 'ACTION', 'ENTRY')
